@@ -396,6 +396,19 @@ pub fn build_node(it: &J) -> P {
             c.boxed()
         }
         "alt" => alt(arr(it, "branches").iter().map(build_node).collect()),
+        "branch" => {
+            let f = arr(it, "fields");
+            if f.len() == 1 {
+                build_node(&f[0])
+            } else {
+                con(f.iter().map(build_node).collect(), false)
+            }
+        }
+        "adj" if it.get("head").is_some() => {
+            let mut fields = vec![build_node(&it["head"])];
+            fields.extend(arr(it, "members").iter().map(build_node));
+            con(fields, true)
+        }
         "seq" | "adj" => con(
             arr(it, "fields").iter().map(build_node).collect(),
             kind == "adj" || b(it, "adjacent"),
